@@ -181,7 +181,7 @@ static _Bool hms_emplace_or_get(struct hms* self, struct iter* ret, hkey args);
  *   MARK   cell c->next : v (unmarked) -> v|1
  *   UNLINK cell (head or p->next, unmarked value c) : c -> MP_get(c->next), c->next marked; then c is retired by the same operation
  * and the expected value must be the one the operation validated last on that cell.  */
-unsigned n_link, n_mark, n_unlink, n_illegal; size_t last_linked, last_marked, last_unlinked; _Bool last_link_validated, last_unlink_validated;
+unsigned n_link, n_mark, n_unlink, n_illegal; size_t last_linked, last_marked, last_unlinked; _Bool last_link_validated, last_unlink_validated, last_link_expected_protected = 1, all_unlink_expected_protected = 1;
 hkey last_marked_key; unsigned char last_marked_gen; _Bool last_mark_was_read, mon_on;
 mptr rd_val[NP]; _Bool rd_has[NP];           /* per node: last value this operation read from its next field (load, or the value a failed CAS returned) */
 static void mon_store(const void* addr, mptr v, int o) {
@@ -214,10 +214,14 @@ static void mon_cas(const void* addr, mptr e, mptr d, _Bool ok, int o) {
     if (!okk) { n_illegal++; return; }
     g_pub[di] = 1; g_linked[di] = 1; n_link++; last_linked = di;
     last_link_validated = (aie_cell == (mptr*)addr && aie_val == e && aie_ok);
+    /* ABA: the expected successor is still protected by a guard of this handle when the CAS is made (an unprotected node may be reclaimed and its address recycled) */
+    last_link_expected_protected = (e == 0 || (ei < NP && g_cnt[ei] > 0));
     return;
   }
   if (e != 0 && ei < NP && g_alloc[ei] && MP_mark(pool[ei].next) != 0 && d == MP_get(pool[ei].next)) {          /* UNLINK */
-    n_unlink++; last_unlinked = ei; g_linked[ei] = 0; if (u_unlink[ei] < 3) u_unlink[ei]++; return;
+    n_unlink++; last_unlinked = ei; g_linked[ei] = 0; if (u_unlink[ei] < 3) u_unlink[ei]++;
+    if (!(g_cnt[ei] > 0)) all_unlink_expected_protected = 0;       /* the node being unlinked is the expected value of the CAS: protected */
+    return;
   }
   n_illegal++;
 }
@@ -810,6 +814,7 @@ void h_emplace_int(void) {
   size_t c = NIDX(G_GET(it.info.cur));
   XV_OBL("hms.insert.commit", int_common() && n_mark == 0 && g_new == 1);
   /* true iff this operation linked its node, by a legal LINK step (key absent at that instant) whose expected value is the one find validated */
+  XV_OBL("hms.insert.expected_protected", last_link_expected_protected && all_unlink_expected_protected);
   if (r) XV_OBL("hms.insert.commit", n_link == 1 && last_linked == L && last_link_validated && g_delete == 0 && g_alloc[L] && g_pub[L] && pool[L].key == in_k && G_GET(it.info.cur) == NADDR(L));
   else XV_OBL("hms.insert.commit", n_link == 0 && g_delete == 1 && !g_alloc[L] && G_GET(it.info.cur) != 0 && c < NP && g_alloc[c] && pool[c].key == in_k);
   XV_OBL("hms.insert.iterator", fi_ok(&it.info, in_k) && it.list == &the_set);
